@@ -250,23 +250,36 @@ def run(ctx):
             fcs = [(bb, tt) for bb, tt in rsf.calls() if callee_matches(tt, "GenericLibraryFactory::from_char_stream")
                    and tt["dest"]["local"] in prs.taint_reach(mir.op_local(t["args"][0]))]
             const_src = False
+            shared_src = []
             for bb, tt in fcs:
                 # char stream argument derives from `str::chars(const)`
                 for b3, t3 in rsf.calls():
                     if callee_matches(t3, "<impl str>::chars") and t3["dest"]["local"] in prs.taint_reach(mir.op_local(tt["args"][1])):
                         if mir.str_of(rsf, t3["args"][0]) is not None:
                             const_src = True
+                        else:
+                            # the text is selected out of something (an array of the bundled sources, indexed): constant when everything
+                            # it is computed from is; shared when a thread-local / static is among its sources
+                            rts = prs.op_roots(t3["args"][0])
+                            shared_src += [r for r in rts if r[0] in ("tls", "static")]
+                            if rts and all(r[0] == "const" for r in rts):
+                                const_src = True
             ctx.inst("C19-construction-total", "register_stdlib_factories/unwrap#%d" % n, {"constant_source": const_src, "census_clean": census_clean})
             ctx.oblige(const_src and census_clean)
-            if not const_src:
+            if not const_src and not shared_src:
+                ctx.undecided("C19-construction-total", "register_stdlib_factories/non-constant", "an unwrap on the construction path acts "
+                              "on a value that is not recognisably computed from a compiled-in constant", where_of(rsf, t))
+            elif not const_src:
                 ctx.report("C19-construction-total", "register_stdlib_factories/non-constant", "an unwrap on the construction path acts "
-                           "on a value that is not computed from a compiled-in constant", where_of(rsf, t))
+                           "on a value computed from state shared between instances (%s), not from a compiled-in constant" % (shared_src[:2],),
+                           where_of(rsf, t))
             elif not census_clean:
                 ctx.report("C19-construction-total", "register_stdlib_factories/shared-syntax", "the bundled libraries are parsed "
                            "with syntax state shared between instances, so this unwrap can panic after another instance redefined "
                            "a derived form", where_of(rsf, t))
     if n < 2:
-        ctx.report("C19-construction-total", "floor", "expected the two stdlib parsing sites", where_of(rsf))
+        ctx.undecided("C19-construction-total", "floor", "expected the two stdlib parsing sites in register_stdlib_factories (construction was "
+                      "restructured: they are no longer where this rule looks)", where_of(rsf))
     # construction must not consult per-process mutable inputs (env vars, cwd, files)
     roots = [fb.find(ITP + "with_environment").name, fb.find(ITP + "new_with_stdlib").name, dflt.name]
     g = fb.call_graph("lib")
